@@ -33,6 +33,7 @@ type facc struct {
 	order  int // strongest enclosing guard "order >= k" (0 if none)
 	stmt   ast.Stmt
 	whole  bool // assignment to the whole field (a.Derivative = ...)
+	cond   bool // nested in a conditional other than a recognised 'order >= k' if-branch
 	inLoop []idxClass
 }
 
@@ -162,6 +163,7 @@ func (f *fnCtx) accesses() []facc {
 		lo, hi string
 	}
 	var walk func(n ast.Node, order int, loops []loopInfo)
+	condDepth := 0
 	classify := func(e ast.Expr, loops []loopInfo) idxClass {
 		if tv, ok := f.info.Types[e]; ok && tv.Value != nil {
 			return idxClass{kind: "const", s: tv.Value.String()}
@@ -205,7 +207,7 @@ func (f *fnCtx) accesses() []facc {
 		if !ok {
 			return false
 		}
-		a := facc{field: field, write: write, rhs: rhs, pos: e.Pos(), order: order, stmt: curStmt, whole: len(idx) == 0}
+		a := facc{field: field, write: write, rhs: rhs, pos: e.Pos(), order: order, stmt: curStmt, whole: len(idx) == 0, cond: condDepth > 0}
 		for _, ie := range idx {
 			a.idx = append(a.idx, classify(ie, loops))
 		}
@@ -233,9 +235,17 @@ func (f *fnCtx) accesses() []facc {
 			if g > o2 {
 				o2 = g
 			}
+			if g == 0 {
+				condDepth++
+			}
 			walk(x.Body, o2, loops)
+			if g == 0 {
+				condDepth--
+			}
 			if x.Else != nil {
+				condDepth++
 				walk(x.Else, order, loops)
+				condDepth--
 			}
 		case *ast.ForStmt:
 			li := loopInfo{}
@@ -282,7 +292,9 @@ func (f *fnCtx) accesses() []facc {
 			curStmt = x
 			walkExpr(f, x.X, func(e ast.Expr) bool { return record(e, false, nil, order, loops) })
 		case *ast.SwitchStmt:
+			condDepth++
 			walk(x.Body, order, loops)
+			condDepth--
 		case *ast.CaseClause:
 			for _, s := range x.Body {
 				walk(s, order, loops)
@@ -456,15 +468,15 @@ func checkMagicState(c *core.Ctx, pkg *packages.Package, T string) {
 			}
 			full := func(ix idxClass) bool { return ix.kind == "loop" && ix.lo == "0" && nBound(ix.hi) }
 			switch {
-			case a.field == "Derivative" && len(a.idx) == 1 && full(a.idx[0]):
+			case a.field == "Derivative" && len(a.idx) == 1 && full(a.idx[0]) && a.order <= 1 && !a.cond:
 				okD = true
-			case a.field == "Hessian" && len(a.idx) == 2 && full(a.idx[0]) && full(a.idx[1]) && a.idx[0].s != a.idx[1].s:
+			case a.field == "Hessian" && len(a.idx) == 2 && full(a.idx[0]) && full(a.idx[1]) && a.idx[0].s != a.idx[1].s && a.order <= 2 && !a.cond:
 				okH = true
 			default:
 				bad = "store outside the full 0..N-1 ranges"
 			}
 		}
-		c.Check(okD && okH && bad == "", R, cons, "zeroes every gradient and Hessian cell", f.fd.Pos(), "ResetDerivatives must zero Derivative[0..N) and Hessian[0..N)[0..N): "+bad)
+		c.Check(okD && okH && bad == "", R, cons, "zeroes every gradient and Hessian cell", f.fd.Pos(), "ResetDerivatives must zero Derivative[0..N) whenever order>=1 and Hessian[0..N)[0..N) whenever order>=2 (no other condition): "+bad)
 	}
 	// Reset
 	if f, cons := get("Reset"); f != nil {
@@ -587,9 +599,9 @@ func checkMagicState(c *core.Ctx, pkg *packages.Package, T string) {
 			}
 			full := func(ix idxClass) bool { return ix.kind == "loop" && ix.lo == "0" && nBound(ix.hi) }
 			switch {
-			case a.field == "Derivative" && len(a.idx) == 1 && full(a.idx[0]) && a.order >= 1:
+			case a.field == "Derivative" && len(a.idx) == 1 && full(a.idx[0]) && a.order == 1 && !a.cond:
 				okD = strings.Contains(f.norm(a.rhs), "P0.GetDerivative("+a.idx[0].s+")")
-			case a.field == "Hessian" && len(a.idx) == 2 && full(a.idx[0]) && full(a.idx[1]) && a.order >= 2:
+			case a.field == "Hessian" && len(a.idx) == 2 && full(a.idx[0]) && full(a.idx[1]) && a.order == 2 && !a.cond:
 				okH = strings.Contains(f.norm(a.rhs), "P0.GetHessian("+a.idx[0].s+", "+a.idx[1].s+")")
 			default:
 				bad = "store outside the full ranges"
